@@ -330,7 +330,9 @@ impl<P: SizedPayload> St<P> {
     pub fn log(&mut self, f: impl FnOnce() -> String) {
         if let Some(t) = self.trace.as_mut() {
             let s = f();
-            t.push(format!("step {:3}: {}", self.step, s));
+            let l = format!("step {:3}: {}", self.step, s);
+            rt::run::trace_stream(&l);
+            t.push(l);
         }
     }
     pub fn fresh_val(&mut self) -> u64 {
